@@ -548,3 +548,193 @@ def h_request_chain(kind, second):
                   'exception', t['uid'])
     check(len(w._res_put.items) == 2, 'results reported: %s',
           len(w._res_put.items))
+
+
+# ------------------------------------------------------------------------------
+# M2: a request submitted through the master's task service (Master._run_task)
+# comes back to the requester, whenever its result arrives
+#
+class WaitEvent(object):
+    """mt.Event of a sequential model: wait() lets the pending world run"""
+    def __init__(self, world):
+        self.world, self.flag = world, False
+    def set(self): self.flag = True
+    def is_set(self): return self.flag
+    def wait(self, timeout=None):
+        if not self.flag:
+            self.world.deliver()             # the other thread gets its turn
+        check(self.flag, 'run_task waits for ever: the result passed '
+              'Master._result_cb %s time(s) but nobody signalled the requester',
+              self.world.delivered)
+        return True
+
+
+@obligation(params={'fast': 'bool', 'ec': (0, 2), 'mode': (0, 1),
+                    'other': 'bool'},
+            timeout={'quick': 200, 'thorough': 400},
+            funcs=['radical/pilot/raptor/master.py:Master._run_task',
+                   'radical/pilot/raptor/master.py:Master.submit_tasks',
+                   'radical/pilot/raptor/master.py:Master._submit_tasks',
+                   'radical/pilot/raptor/master.py:Master._result_cb'],
+            bounds='one request through Master._run_task (function or '
+                   'executable mode); its result reaches _result_cb either '
+                   'while submit_tasks is still running (fast worker) or while '
+                   'the requester waits; exit code 0 / 1 / absent; optionally '
+                   'a second, unrelated result in the same bulk',
+            stubs=['mt.Event -> sequential wait model', 'request queue / '
+                   'advance -> recorders', 'ru.generate_id -> counter'])
+def h_run_task(fast, ec, mode, other):
+    """the requester gets its request back exactly once, with the outcome"""
+    ec, mode = conc(ec, 0, 2), conc(mode, 0, 1)
+    m = mk_master()
+    m.request_cb = lambda tasks: tasks
+    m.result_cb  = lambda tasks: None
+    class World(object):
+        pending, delivered = [], 0
+        def deliver(self):
+            if not self.pending: return
+            tasks, self.pending = self.pending, []
+            for t in tasks:
+                if   ec == 0: t['exit_code'] = 0
+                elif ec == 1: t['exit_code'] = 1
+                t['return_value'] = 42
+            bulk = list(tasks)
+            if other:
+                bulk.insert(0, {'uid': 'unrelated', 'type': 'task',
+                                'exit_code': 0})
+            self.delivered += 1
+            real(m._result_cb, bulk)
+    w = World()
+    w.pending = []
+    def submitted(tasks):
+        w.pending.extend(ru.as_list(tasks))
+        if fast: w.deliver()
+    m._req_put = type('P', (), {'put': staticmethod(submitted)})()
+    m._submit_executable_tasks = lambda tasks: submitted(tasks) if tasks else None
+    old_ev, old_id = m_m.mt.Event, m_m.ru.generate_id
+    cnt = [0]
+    class MT(object):
+        Event = staticmethod(lambda: WaitEvent(w))
+        def __getattr__(self, k): return getattr(old_mt, k)
+    old_mt, old_ru = m_m.mt, m_m.ru
+    class RU(object):
+        def __getattr__(self, k): return getattr(old_ru, k)
+        @staticmethod
+        def generate_id(*a, **k):
+            cnt[0] += 1
+            return 'subtask.%04d' % cnt[0]
+    m_m.mt, m_m.ru = MT(), RU()
+    try:
+        td = {'mode': [m_td.TASK_FUNC, m_td.TASK_EXECUTABLE][mode],
+              'function': 'f', 'executable': '/bin/true'}
+        ret = real(m._run_task, td)
+    finally:
+        m_m.mt, m_m.ru = old_mt, old_ru
+    reach()
+    trace('returned', {k: ret.get(k) for k in ('uid', 'exit_code',
+          'target_state', 'return_value')}, 'advanced', m.advanced)
+    check(w.delivered == 1, 'result delivered %s times', w.delivered)
+    check(ret.get('return_value') == 42, 'the requester got its request back '
+          'without the result (return_value %r)', ret.get('return_value'))
+    want = rps.DONE if ec == 0 else rps.FAILED
+    check(ret.get('target_state') == want, 'request with exit code %s came '
+          'back with target state %r', [0, 1, None][ec], ret.get('target_state'))
+    check(not m._task_service_data, 'task service still tracks %s',
+          list(m._task_service_data))
+
+
+# ------------------------------------------------------------------------------
+# M3: scheduler side routing: function-like requests are relayed to a raptor
+# queue exactly once, whatever the order of arrivals and queue registrations
+#
+import radical.pilot.agent.scheduler.base as m_sbase               # noqa: E402
+import harness.sched as HS                                          # noqa: E402
+
+
+class RQ(object):
+    def __init__(self, name, log): self.name, self.log = name, log
+    def put(self, tasks):
+        for t in ru.as_list(tasks):
+            self.log.append((self.name, t['uid']))
+
+
+REVS = ['task for m0', 'task for *', 'executable seen by raptor',
+        'plain executable', 'register m0', 'register m1']
+
+
+@obligation(params={'e0': (0, 5), 'e1': (0, 5), 'e2': (0, 5), 'e3': (0, 5)},
+            shapes={'quick': [{'L': 3}], 'thorough': [{'L': 4}]},
+            partition={'quick': ('e0', 6), 'thorough': ('e0', 6)},
+            timeout={'quick': 300, 'thorough': 900},
+            funcs=['radical/pilot/agent/scheduler/base.py:'
+                   'AgentSchedulingComponent._schedule_incoming',
+                   'radical/pilot/agent/scheduler/base.py:'
+                   'AgentSchedulingComponent.control_cb'],
+            bounds='L events (quick 3, thorough 4) out of: function request '
+                   'for master m0 / for any master (*), executable request '
+                   'already seen by raptor, plain executable task, '
+                   'registration of the queue of m0 / m1; at the end m0 '
+                   'registers if it has not; 1 node x 4 cores',
+            stubs=['ru.zmq.Putter -> recorder'])
+def h_sched_routing(e0, e1, e2, e3, L=3):
+    """every function-like request is relayed once, executables run here"""
+    if L < 4 and e3: return
+    evs = [conc(e0, 0, 5), conc(e1, 0, 5), conc(e2, 0, 5)] + \
+          ([conc(e3, 0, 5)] if L >= 4 else [])
+    nodes = HS.mk_nodes([[rpc.FREE] * 4], [[]], 0, 0)
+    s = HS.mk_sched(nodes, 4, 0)
+    puts = []
+    old = m_sbase.ru
+    class RU(object):
+        def __getattr__(self, k): return getattr(old, k)
+        class zmq(object):
+            @staticmethod
+            def Putter(queue, addr): return RQ(queue, puts)
+            def __getattr__(self, k): return getattr(old.zmq, k)
+    m_sbase.ru = RU()
+    kinds, reg = {}, []
+    try:
+        for i, e in enumerate(evs):
+            uid = 't%d' % i
+            if e <= 3:
+                rid  = ['m0', '*', 'm0', None][e]
+                mode = ['task.function', 'task.function', 'task.executable',
+                        'task.executable'][e]
+                t = HS.mk_task(uid, raptor_id=rid, mode=mode)
+                if e == 2: t['raptor_seen'] = True
+                kinds[uid] = e
+                s._queue_sched.put(([t], s._SCHEDULE))
+                real(s._schedule_incoming)
+            else:
+                name = ['m0', 'm1'][e - 4]
+                if name in reg: continue
+                reg.append(name)
+                real(s.control_cb, 'control', {'cmd': 'register_raptor_queue',
+                     'arg': {'name': name, 'queue': name, 'addr': 'a'}})
+        if 'm0' not in reg:
+            reg.append('m0')
+            real(s.control_cb, 'control', {'cmd': 'register_raptor_queue',
+                 'arg': {'name': 'm0', 'queue': 'm0', 'addr': 'a'}})
+    finally:
+        m_sbase.ru = old
+    reach()
+    trace('events', [REVS[e] for e in evs], 'puts', puts, 'advanced',
+          s.advanced, 'backlog', {k: [t['uid'] for t in v]
+                                  for k, v in s._raptor_tasks.items()})
+    for uid, e in kinds.items():
+        relayed = [q for q, u in puts if u == uid]
+        here    = [a for a in s.advanced if a[0] == uid]
+        if e in (0, 1):
+            check(len(relayed) == 1, 'function request %s (%s) relayed to a '
+                  'raptor queue %s times: %s (backlog %s)', uid, REVS[e],
+                  len(relayed), relayed, list(s._raptor_tasks))
+            check(not here, 'function request %s also handled by the agent '
+                  'scheduler: %s', uid, here)
+            if e == 0:
+                check(relayed == ['m0'], 'request for m0 relayed to %s', relayed)
+        else:
+            check(not relayed, 'executable request %s relayed to raptor %s',
+                  uid, relayed)
+            check(len(here) == 1 and here[0][1] == rps.AGENT_EXECUTING_PENDING,
+                  'executable request %s not placed by the agent scheduler '
+                  '(%s)', uid, here)
